@@ -1,0 +1,119 @@
+//go:build verif
+
+// Contracts for the verifier in /verif (comment-only; compiled only with -tags verif, adds no code).
+package decoder
+
+// ---- C10: origins of a list literal. Every written element is read against the element constraint of the
+// ---- list and - whenever it is an expression that can hold references - asked for its origins with the
+// ---- caller's context; origins of earlier elements are kept; nothing is reported for an expression that is
+// ---- not a list literal or for a list without an element constraint.
+//@ contract (decoder.List).ReferenceOrigins (list, ctx) (result)
+//@   ghost elemRead after decoder.newExpression#1 : true
+//@   ghost asked after invoke:ReferenceOrigins#1 : true
+//@   ghost notAList after (hcl.Diagnostics).HasErrors#1 : callresult
+//@   assert before decoder.newExpression#1 : [C10,name:element-against-the-element-constraint] arg1 == elemExpr && arg2 == list.cons.Elem
+//@   assert before invoke:ReferenceOrigins#1 : [C10,name:context-handed-on-unchanged] arg0 == ctx
+//@   loop 1 iter [C10,name:every-element-is-read] elemRead
+//@   loop 1 iter [C10,name:every-element-that-can-hold-references-is-asked] implies(ok, asked)
+//@   loop 1 iter [C10,name:origins-of-earlier-elements-are-kept] len(origins) >= old(len(origins))
+//@   ensures [C10,name:elements-are-visited-whenever-there-is-an-element-constraint] implies(!notAList && len(elems) > 0 && list.cons.Elem != nil, pastloop(1))
+//@   ensures [C10,name:nothing-for-what-is-not-a-list] implies(notAList, len(result) == 0)
+//@   ensures [C10,name:nothing-without-an-element-constraint] implies(list.cons.Elem == nil, len(result) == 0)
+
+// ---- C10: origins of a set literal: as for a list.
+//@ contract (decoder.Set).ReferenceOrigins (set, ctx) (result)
+//@   ghost elemRead after decoder.newExpression#1 : true
+//@   ghost asked after invoke:ReferenceOrigins#1 : true
+//@   ghost notASet after (hcl.Diagnostics).HasErrors#1 : callresult
+//@   assert before decoder.newExpression#1 : [C10,name:element-against-the-element-constraint] arg1 == elemExpr && arg2 == set.cons.Elem
+//@   assert before invoke:ReferenceOrigins#1 : [C10,name:context-handed-on-unchanged] arg0 == ctx
+//@   loop 1 iter [C10,name:every-element-is-read] elemRead
+//@   loop 1 iter [C10,name:every-element-that-can-hold-references-is-asked] implies(ok, asked)
+//@   loop 1 iter [C10,name:origins-of-earlier-elements-are-kept] len(origins) >= old(len(origins))
+//@   ensures [C10,name:elements-are-visited-whenever-there-is-an-element-constraint] implies(!notASet && len(elems) > 0 && set.cons.Elem != nil, pastloop(1))
+//@   ensures [C10,name:nothing-for-what-is-not-a-set] implies(notASet, len(result) == 0)
+//@   ensures [C10,name:nothing-without-an-element-constraint] implies(set.cons.Elem == nil, len(result) == 0)
+
+// ---- C10: a value that may take one of several forms is read once per admitted form - the whole expression
+// ---- against each alternative in turn - and what an alternative yields is merged into the list accumulated so
+// ---- far (the merge keeps one origin per reference and place, see appendOrigins), never replaces it.
+//@ contract (decoder.OneOf).ReferenceOrigins (oo, ctx) (result)
+//@   ghost altRead after decoder.newExpression#1 : true
+//@   ghost asked after invoke:ReferenceOrigins#1 : true
+//@   ghost merged after decoder.appendOrigins#1 : true
+//@   assert before decoder.newExpression#1 : [C10,name:whole-expression-against-each-alternative] arg1 == oo.expr && arg2 == con
+//@   assert before invoke:ReferenceOrigins#1 : [C10,name:context-handed-on-unchanged] arg0 == ctx
+//@   assert before decoder.appendOrigins#1 : [C10,name:merged-into-what-was-collected-so-far] asked && arg0 == origins
+//@   loop 1 iter [C10,name:every-alternative-is-tried] altRead
+//@   loop 1 iter [C10,name:every-alternative-that-can-hold-references-is-asked] implies(ok, asked && merged)
+
+// ---- C10: templates. A template that interpolates anything is handled here and every one of its parts is
+// ---- read as a string-typed expression; a wrapped template ("${x}") has its wrapped expression read the same
+// ---- way; a plain string literal and everything that is not a template is left to the other readers.
+//@ spec wrapOf(e hcl.Expression) *hclsyntax.TemplateWrapExpr = as(e, "*hclsyntax.TemplateWrapExpr")
+//@ contract (decoder.Any).refOriginsForTemplateExpr (a, ctx) (result, handled)
+//@   ghost literal after (*hclsyntax.TemplateExpr).IsStringLiteral#1 : callresult
+//@   ghost partRead after decoder.newExpression#1 : true
+//@   ghost partAsked after invoke:ReferenceOrigins#1 : true
+//@   ghost wrappedRead after decoder.newExpression#2 : true
+//@   ghost wrappedAsked after invoke:ReferenceOrigins#2 : true
+//@   assert before decoder.newExpression#1 : [C10,name:part-as-a-string-expression] arg1 == partExpr && typeis(arg2, "schema.AnyExpression") && elemTypeOf(arg2) == cty.String
+//@   assert before decoder.newExpression#2 : [C10,name:wrapped-expression-as-a-string-expression] arg1 == wrapOf(a.expr).Wrapped && typeis(arg2, "schema.AnyExpression") && elemTypeOf(arg2) == cty.String
+//@   assert before invoke:ReferenceOrigins#1 : [C10,name:context-handed-on-unchanged] arg0 == ctx
+//@   assert before invoke:ReferenceOrigins#2 : [C10,name:context-handed-on-unchanged] arg0 == ctx
+//@   loop 1 iter [C10,name:every-part-is-read] partRead
+//@   loop 1 iter [C10,name:every-part-that-can-hold-references-is-asked] implies(ok, partAsked)
+//@   loop 1 iter [C10,name:origins-of-earlier-parts-are-kept] len(origins) >= old(len(origins))
+//@   ensures [C10,name:interpolating-template-is-handled-part-by-part] implies(typeis(a.expr, "*hclsyntax.TemplateExpr") && !literal, handled && pastloop(1))
+//@   ensures [C10,name:wrapped-template-is-handled] implies(typeis(a.expr, "*hclsyntax.TemplateWrapExpr"), handled && wrappedRead)
+//@   ensures [C10,name:wrapped-expression-that-can-hold-references-is-asked] implies(typeis(a.expr, "*hclsyntax.TemplateWrapExpr") && ok, wrappedAsked)
+//@   ensures [C10,name:only-templates-are-handled-here] implies(handled, (typeis(a.expr, "*hclsyntax.TemplateExpr") && !literal) || typeis(a.expr, "*hclsyntax.TemplateWrapExpr"))
+
+// ---- C10: what an origin written under a reference constraint may resolve to: the scope and the type the
+// ---- constraint names, as one alternative - and nothing where the constraint declares an address of its own
+// ---- (such a traversal is a target, not a use) or names neither scope nor type.
+//@ contract decoder.originConstraintsFromCons (cons) (result)
+//@   ensures [C10,name:a-declaring-traversal-resolves-to-nothing] implies(cons.Address != nil, len(result) == 0)
+//@   ensures [C10,name:no-scope-and-no-type-resolves-to-nothing] implies(cons.OfType == cty.NilType && cons.OfScopeId == "", len(result) == 0)
+//@   ensures [C10,name:scope-and-type-of-the-constraint] implies(cons.Address == nil && !(cons.OfType == cty.NilType && cons.OfScopeId == ""), len(result) == 1 && result[0].OfType == cons.OfType && result[0].OfScopeId == cons.OfScopeId)
+//@   ensures [C10] fresh(result)
+
+// ---- C10: the address an object attribute points to (origin-for-target) is built from the steps the schema
+// ---- declares, one address step per schema step and in their order: the root step first, attribute steps
+// ---- behind it; a static step contributes its own name, an attribute-name step the name of the attribute as
+// ---- written. An empty schema address or a step of an unknown kind gives no address at all (never a prefix).
+//@ contract decoder.resolveObjectAddress (attrName, addr) (result, ok)
+//@   loop 1 invariant [C10] len(address) == rangeindex + 1 && fresh(address) && len(addr) > 0
+//@   loop 1 iter [C10,name:only-known-kinds-of-steps-are-passed] typeis(s, "schema.StaticStep") || typeis(s, "schema.AttrNameStep")
+//@   loop 1 iter [C10,name:attribute-name-step-is-the-written-name] implies(typeis(s, "schema.AttrNameStep"), stepName == attrName)
+//@   loop 1 iter [C10,name:static-step-is-its-own-name] implies(typeis(s, "schema.StaticStep"), stepName == as(s, "schema.StaticStep").Name)
+//@   loop 1 iter [C10,name:one-step-per-schema-step-root-first] len(address) == old(len(address)) + 1 && ite(i == 0, typeis(address[len(address)-1], "lang.RootStep") && as(address[len(address)-1], "lang.RootStep").Name == stepName, typeis(address[len(address)-1], "lang.AttrStep") && as(address[len(address)-1], "lang.AttrStep").Name == stepName)
+//@   ensures [C10,name:no-address-from-an-empty-schema-address] implies(len(addr) == 0, !ok)
+//@   ensures [C10,name:as-many-steps-as-the-schema-declares] implies(ok, len(result) == len(addr) && len(addr) > 0)
+//@   ensures [C10,name:never-a-partial-address] implies(!ok, len(result) == 0)
+
+// ---- C10/C02: collecting the origins of a path. Without a schema nothing is known, so nothing is collected;
+// ---- otherwise the root body of every file that can be read is walked with the path's root schema and what
+// ---- it yields is kept. An implied origin is added for exactly the local origins whose address is the implied
+// ---- one's origin address, at the very range of that local origin (the text of the reference), pointing at
+// ---- the target address and path the schema declares.
+//@ spec lastPath(l reference.Origins) reference.PathOrigin = as(l[len(l)-1], "reference.PathOrigin")
+//@ contract (*decoder.PathDecoder).CollectReferenceOrigins (d) (result, err)
+//@   ghost bodyWalked after (*decoder.PathDecoder).referenceOriginsInBody#1 : true
+//@   assert before (*decoder.PathDecoder).referenceOriginsInBody#1 : [C10,name:root-body-of-the-file-with-the-root-schema] arg1 == f.Body && arg2 == d.pathCtx.Schema
+//@   ensures [C10,name:nothing-without-a-schema] implies(old(d.pathCtx.Schema) == nil, len(result) == 0 && err != nil)
+//@   ensures [C10,name:every-file-is-visited-when-there-is-a-schema] implies(old(d.pathCtx.Schema) != nil, err == nil && pastloop(1))
+//@   loop 1 iter [C10,name:every-readable-file-is-walked] implies(err == nil, bodyWalked)
+//@   loop 1 iter [C10,name:origins-of-earlier-files-are-kept] len(refOrigins) >= old(len(refOrigins)) && len(impliedOrigins) >= old(len(impliedOrigins))
+//@   loop 1 iter [C10,name:every-implied-origin-of-the-body-is-added] implies(err == nil, len(impliedOrigins) == old(len(impliedOrigins)) + len(ios))
+//@   ghost sameAddress after (lang.Address).Equals#1 : callresult
+//@   assert before (lang.Address).Equals#1 : [C10,name:address-of-the-local-origin-against-the-implied-origin-address] typeis(origin, "reference.LocalOrigin") && arg0 == as(origin, "reference.LocalOrigin").Addr && arg1 == impliedOrigin.OriginAddress
+//@   ghost implied after invoke:OriginRange#1 : true
+//@   assert before invoke:OriginRange#1 : [C10,name:implied-origin-only-for-a-local-origin-of-the-implied-address] sameAddress
+//@   loop 3 iter [C10,name:implied-origin-only-for-a-local-origin-of-the-implied-address] implies(len(refOrigins) > old(len(refOrigins)), implied)
+//@   loop 3 iter [C10,name:every-local-origin-is-compared] implies(typeis(origin, "reference.LocalOrigin"), compared)
+//@   ghost compared after (lang.Address).Equals#1 : true
+//@   loop 3 iter [C10] len(refOrigins) == old(len(refOrigins)) || len(refOrigins) == old(len(refOrigins)) + 1
+//@   loop 3 iter [C10,C02,name:implied-origin-at-the-range-of-the-reference] implies(len(refOrigins) > old(len(refOrigins)), typeis(refOrigins[len(refOrigins)-1], "reference.PathOrigin") && lastPath(refOrigins).Range == origin.OriginRange())
+//@   loop 3 iter [C10,name:implied-origin-points-where-the-schema-says] implies(len(refOrigins) > old(len(refOrigins)), lastPath(refOrigins).TargetAddr == impliedOrigin.TargetAddress && lastPath(refOrigins).TargetPath == impliedOrigin.Path)
+//@   loop 3 iter [C10,name:implied-origin-resolves-within-the-declared-scope-and-type] implies(len(refOrigins) > old(len(refOrigins)), len(lastPath(refOrigins).Constraints) == 1 && lastPath(refOrigins).Constraints[0].OfScopeId == impliedOrigin.Constraints.ScopeId && lastPath(refOrigins).Constraints[0].OfType == impliedOrigin.Constraints.Type)
